@@ -64,7 +64,6 @@ BAD_CONFIGS = [
     {'cls': 'FormulaGrader', 'cfg': {'answers': 'x', 'variables': ['x'], 'whitelist': ['sin'],
                                      'blacklist': ['cos']}},
     {'cls': 'FormulaGrader', 'cfg': {'answers': 'x', 'variables': ['x', 'x']}},
-    {'cls': 'FormulaGrader', 'cfg': {'answers': 'x', 'variables': ['pi']}},
     {'cls': 'FormulaGrader', 'cfg': {'answers': 'x', 'samples': 0}},
     {'cls': 'FormulaGrader', 'cfg': {'answers': 'x', 'tolerance': -1}},
     {'cls': 'FormulaGrader', 'cfg': {'answers': 'x', 'sample_from': {'zz': [1, 2]}}},
@@ -432,6 +431,7 @@ class Run(object):
         self.cur_layer = None
         self.dgn = {}
         self.last_call = {}
+        self.dict_reg = {}
 
     def bump(self, d, key, n=1):
         d[key] = d.get(key, 0) + n
@@ -462,6 +462,10 @@ class Run(object):
 
     def build(self, gid):
         tp = self.tenants[gid]
+        did = tp['bp'].get('dict_id')
+        if did is not None and did not in self.dict_reg:
+            # the shared dictionary (and the objects nested in it) is written now
+            self.dict_reg[did] = copy.deepcopy(self.reg)
         o, g = outcome2(self.builder.build, tp['bp'])
         self.built_reg[gid] = copy.deepcopy(self.reg)
         strings_in(tp['bp']['cfg'].get('answers'), self.touched)
@@ -503,6 +507,15 @@ class Run(object):
         try:
             for sid in self.refs_of(bp):
                 b2.registry[sid] = b2.resolve_ref(sid, b2)
+            did = bp.get('dict_id')
+            if did is not None and did in self.dict_reg:
+                # nested objects of a shared config dictionary were constructed when the dictionary
+                # was written, possibly under other registered defaults than this tenant's build
+                self.apply_reg(self.dict_reg[did])
+                try:
+                    b2.predecode(bp)
+                except Exception:  # pylint: disable=broad-except
+                    pass
             self.apply_reg(self.built_reg.get(gid, self.reg))
             o, g2 = outcome2(b2.build, bp)
         finally:
